@@ -23,6 +23,7 @@ type PoolCfg struct {
 	Sched             string // script | random | free | barrier | full | paced
 	Open              bool   // a slice of a longer run: the pool is not closed at its end
 	QCap              int    // capacity of the pool's task queue as read off the pool object (-1: unknown)
+	Early             bool   // Close is called without Wait after the last round's submissions
 }
 
 var (
@@ -60,14 +61,14 @@ func queueCap(p *flyt.WorkerPool) (c int) {
 }
 
 func parsePoolCfg(m map[string]any) PoolCfg {
-	c := PoolCfg{W: asInt(m["W"]), S: asInt(m["S"]), Per: asInt(m["per"]), Rounds: asInt(m["rounds"]), Gated: asBool(m["gated"]), Sched: asStr(m["sched"]), Open: asBool(m["open"]), QCap: -1}
+	c := PoolCfg{W: asInt(m["W"]), S: asInt(m["S"]), Per: asInt(m["per"]), Rounds: asInt(m["rounds"]), Gated: asBool(m["gated"]), Sched: asStr(m["sched"]), Open: asBool(m["open"]), QCap: -1, Early: asBool(m["early"])}
 	if c.Sched == "" {
 		c.Sched = "script"
 	}
 	return c
 }
 func (c PoolCfg) toJSON() map[string]any {
-	return map[string]any{"W": c.W, "S": c.S, "per": c.Per, "rounds": c.Rounds, "gated": c.Gated, "sched": c.Sched, "open": c.Open, "qcap": poolQCap(c.W)}
+	return map[string]any{"W": c.W, "S": c.S, "per": c.Per, "rounds": c.Rounds, "gated": c.Gated, "sched": c.Sched, "open": c.Open, "qcap": poolQCap(c.W), "early": c.Early}
 }
 
 type poolStep struct {
@@ -360,6 +361,9 @@ func runPoolScenario(cfg PoolCfg, steps []poolStep, expKeys []evKey, seed int64)
 				}(r, s)
 			}
 			join.Wait() // sync.WaitGroup forbids Add from zero concurrently with Wait
+			if cfg.Early && r == cfg.Rounds {
+				break // Close without Wait
+			}
 			p.log(Event{"ev": "waitcall", "round": r})
 			pool.Wait()
 			seen := 0
@@ -599,6 +603,13 @@ func init() {
 				case "small":
 					cfg.W = r.Intn(5) - 1
 					cfg.Per = r.Intn(5)
+				case "earlyclose": // Close without Wait: conformance with the specification only, no verdict
+					cfg.W = r.Intn(4)
+					cfg.S = 1 + r.Intn(2)
+					cfg.Per = 1 + r.Intn(3)
+					cfg.Rounds = 1
+					cfg.Sched = "free"
+					cfg.Early = true
 				case "full": // more tasks than queue slots and workers together, nothing finishes until Submit blocks
 					cfg.W = r.Intn(4) - 1
 					nw := cfg.W
@@ -616,6 +627,10 @@ func init() {
 				evs := runPoolScenario(cfg, nil, nil, r.Int63())
 				noteHang(evs)
 				id++
+				if cfg.Early {
+					o.WriteScenario(id, "poolearly", "gen:"+mode, cfg.toJSON(), nil, evs)
+					continue
+				}
 				o.WriteScenario(id, "pool", "gen:"+mode, cfg.toJSON(), nil, evs)
 			}
 		}
